@@ -31,8 +31,11 @@ func main() {
 	maxPaths := flag.Int("maxpaths", 200000, "")
 	maxInstrs := flag.Int64("maxinstrs", 5000000, "")
 	loopLimit := flag.Int("looplimit", 4096, "")
-	mergeBudget := flag.Int64("mergebudget", 20000, "")
+	mergeBudget := flag.Int64("mergebudget", 64, "instructions an arm of a branch in code under test may run and still be merged at the join")
+	oracleBudget := flag.Int64("oraclebudget", 200000, "same, for branches inside harness oracle functions (verif*/Verif*) and -mergefuncs")
+	mergeFuncs := flag.String("mergefuncs", "", "comma-separated functions treated like oracle functions for merging")
 	noMerge := flag.Bool("nomerge", false, "")
+	eager := flag.Bool("eager", false, "decide branch feasibility before forking (no lazily verified arms)")
 	noMergeFuncs := flag.String("nomergefuncs", "", "comma-separated function names in which branches are never merged")
 	deadline := flag.Duration("deadline", 0, "wall clock budget per entry")
 	smtlog := flag.String("smtlog", "", "file receiving all solver input")
@@ -128,7 +131,12 @@ func main() {
 			solver.Log = lf
 		}
 		ec := exec.Config{MaxPaths: *maxPaths, MaxInstrs: *maxInstrs, LoopLimit: *loopLimit, MergeBudget: *mergeBudget,
-			NoMerge: *noMerge, Witness: jb.Witness, Trace: *trace, NoMergeFuncs: map[string]bool{}, Params: jb.Params}
+			NoMerge: *noMerge, Witness: jb.Witness, Trace: *trace, NoMergeFuncs: map[string]bool{}, Params: jb.Params, EagerBranches: *eager, OracleMergeBudget: *oracleBudget, MergeFuncs: map[string]bool{}}
+		for _, f := range strings.Split(*mergeFuncs, ",") {
+			if f != "" {
+				ec.MergeFuncs[f] = true
+			}
+		}
 		for _, f := range strings.Split(*noMergeFuncs, ",") {
 			if f != "" {
 				ec.NoMergeFuncs[f] = true
